@@ -172,7 +172,7 @@ def step (s : St) (w : List String) : St × String :=
     | some 2, some n => (s, s!"gas={ModExp.sha256Gas n}")
     | some 3, some n => (s, s!"gas={ModExp.ripemdGas n}")
     | some 4, some n => (s, s!"gas={ModExp.dataCopyGas n} ret={n}")
-    | some 8, some n => (s, s!"gas={ModExp.pairingGas n} err={if n % 192 = 0 then 0 else 1}")
+    | some 8, some n => (s, s!"gas={ModExp.pairingGas n} sizeerr={if n % 192 = 0 then 0 else 1}")
     | _, _ => (s, "bad-op")
   | ["end"] =>
     match s.m.result, s.m.frames with
